@@ -6,3 +6,16 @@ violation)."""
 
 def never(what, case, detail):
     return False
+
+
+def akai_chain_head_not_lowest(what, case, detail):
+    """D4: AKAI SAT decoding discovers chains from their lowest sector; a well-formed chain
+    whose first sector is not its lowest loses the part before the lowest sector."""
+    return what == "AKAI well-formed chain resolves exactly" and isinstance(case, dict) \
+        and case.get("head_is_lowest") is False
+
+
+def akai_dir_run_reaches_table_end(what, case, detail):
+    """D11: a reserved-flag run that includes the very last SAT entry is never installed."""
+    return what == "AKAI directory run resolves exactly" and isinstance(case, dict) \
+        and case.get("run_reaches_table_end") is True
